@@ -11,6 +11,7 @@ def run(ctx):
     store.rule_error_before_mutation(ctx)
     store.rule_idempotent_insertions(ctx)
     store.rule_index_pairing(ctx)
+    store.rule_attack_orientation(ctx)
     ctx.assume("rustc's MIR and resolved callees; AAFramework::new_argument ignores existing labels (checked by C12's rules, shared here)")
     return (
         "Return-source analysis of the 6x3 Result-returning DynamicSolver methods through the call graph (Err-capability), control-dependence "
